@@ -19,6 +19,11 @@ class Malformed(Exception):
     pass
 
 
+class Undocumented(Malformed):
+    """Shapes the documentation does not settle (text glued behind a closing quote): callers that
+    judge acceptance treat them as unspecified."""
+
+
 def parse_path(p: str):
     """Reference tokenizer of the documented NPath grammar -> (scope_depth, [segment names]).
 
@@ -59,7 +64,7 @@ def parse_path(p: str):
                 raise Malformed("unterminated quote")
             segs.append(("".join(buf), True))
             if i < n and p[i] != ".":
-                raise Malformed("text after closing quote")
+                raise Undocumented("text after closing quote")
         else:
             j = i
             while j < n and p[j] not in '."':
